@@ -45,7 +45,13 @@ impl ByteCompiler<'_> {
             };
             self.patch_jump(label);
 
+            // A later clause can be entered without running this one, so a register copy of a
+            // `const` declared here must not be used after the clause: the binding may still
+            // be uninitialized there.
+            let cached: Vec<_> = self.const_binding_cache.keys().cloned().collect();
             self.compile_statement_list(case.body(), use_expr, true);
+            self.const_binding_cache
+                .retain(|locator, _| cached.contains(locator));
         }
 
         if !default_label_set {
